@@ -132,8 +132,8 @@ for _k, _v in TIES.items():
 # and the code found by the generator of a sibling property unties this property's theorems from the code as well
 # (e.g. an aliasing defect between sibling extended keys shows in C15's histories and invalidates the C04 model).
 SHARED = {
-    "C01": ["C02"], "C02": ["C01"], "C03": ["C02", "C07"],
-    "C04": ["C15", "C05"], "C05": ["C04", "C15"], "C15": ["C04", "C05"],
+    "C01": ["C02", "C07"], "C02": ["C01", "C07"], "C03": ["C02", "C07"],
+    "C04": ["C15", "C05"], "C05": ["C04", "C15", "C07"], "C15": ["C04", "C05"], "C06": ["C07"],
     "C08": ["C09", "C12", "C13", "C16", "C15"],
     "C09": ["C10", "C20"], "C10": ["C09"], "C20": ["C09", "C10"],
     "C11": ["C12"], "C12": ["C11"],
